@@ -199,10 +199,20 @@ def hyp_cases(draw, tier):
     explicit = flavour == "str"
     opts = gen.node_opts(explicit_ids=explicit, kinds=typed, meta=True)
     spec = draw(gen.forest_specs(max_nodes=12, max_depth=4, max_width=4, min_nodes=1, alphabet=gen_ops.LABELS, opts=opts))
-    spec_t = draw(gen.forest_specs(max_nodes=8, max_depth=3, max_width=3, alphabet=gen_ops.LABELS + ["t1", "t2"], opts=gen.node_opts(explicit_ids=False, kinds=typed)))
+    spec_t = draw(gen.forest_specs(max_nodes=8, max_depth=3, max_width=3, alphabet=gen_ops.LABELS + ["t1", "t2"], opts=gen.node_opts(explicit_ids=explicit, kinds=typed)))
     if explicit:
         gen.localize_ids(spec, gen_ops.LABELS)
         gen.fix_sibling_ids(spec)
+        gen.localize_ids(spec_t, gen_ops.LABELS + ["t1", "t2"])
+        gen.fix_sibling_ids(spec_t)
+        if draw(st.sampled_from([0, 1])) and len(spec_t) >= 1:
+            # equal-comparing siblings in the target: same data under another explicit id
+            spec_t.insert(draw(st.integers(0, len(spec_t))), [spec_t[0][0], [], {"id": "EQ"}])
+            eq_later = max(i for i, n in enumerate(spec_t) if n[0] == spec_t[0][0] or (len(n) > 2 and n[2] and n[2].get("id") == "EQ"))
+        else:
+            eq_later = None
+    else:
+        eq_later = None
     B = gen_ops.before_json(valid_only=True)
     tri = st.sampled_from([None, True, False])
     copy = draw(st.one_of(
@@ -213,6 +223,15 @@ def hyp_cases(draw, tier):
         st.tuples(st.just("add_node"), gen_ops.PREF, st.just(1), gen_ops.REF, tri, B).map(list),
         st.tuples(st.just("add_tree"), gen_ops.PREF, B, tri).map(list),
     ))
+    if eq_later is not None and draw(st.booleans()):
+        # directed: place the copy before the LATER one of two equal-comparing top-level siblings
+        which = draw(st.sampled_from(["add_node", "copy_from2", "add_tree"]))
+        if which == "add_node":
+            copy = ["add_node", -1, 1, draw(gen_ops.REF), draw(tri), ["c", eq_later]]
+        elif which == "copy_from2":
+            copy = ["copy_from2", draw(gen_ops.REF), -1, True, ["c", eq_later], draw(st.booleans())]
+        else:
+            copy = ["add_tree", -1, ["c", eq_later], draw(tri)]
     hist = draw(gen_ops.histories(typed=typed, max_ops=12 if tier == "quick" else 25, explicit_ids=explicit,
                                   kinds=["rename" if flavour == "str" else "set_data", "set_data", "add", "remove", "move", "sort", "meta", "clear",
                                          "remove_children", "add_node", "filter", "del"], max_nodes=1))
